@@ -283,18 +283,22 @@ Definition mix (h x : Z) : Z := Z.land (1000003 * h + x + 1) HMASK.
    tell apart the few packets of an exhaustive family; the case-by-case comparison of generated
    histories uses full equality instead *)
 Definition bytes_code (l : bytes) : Z := blen l + 256 * nth 2 l 0 + 65536 * last l 0.
-Definition mix_bytes (h : Z) (l : bytes) : Z := mix h (bytes_code l).
+(* the complete byte string, for the case-by-case comparison *)
+Definition bytes_full (l : bytes) : Z := fold_left mix l (blen l).
 Definition mix_zs (h : Z) (l : list Z) : Z := fold_left mix l (mix h (Z.of_nat (length l))).
 Definition mix_bool (h : Z) (b : bool) : Z := mix h (if b then 1 else 0).
 
+Section Digest.
+Variable bc : bytes -> Z.          (* how a byte string enters: bytes_code or bytes_full *)
+
 Definition mix_out (h : Z) (o : out) : Z :=
   match o with
-  | Raw a p => mix_bytes (mix (mix h 1) a) p
-  | Tunnel t c d g p => mix_bytes (mix (mix (mix (mix (mix h 2) t) c) d) g) p
+  | Raw a p => mix (mix (mix h 1) a) (bc p)
+  | Tunnel t c d g p => mix (mix (mix (mix (mix (mix h 2) t) c) d) g) (bc p)
   | CreateCircuit n f => mix_zs (mix (mix h 3) n) f
-  | Queued a p => mix_bytes (mix (mix h 4) a) p
-  | Evicted a p => mix_bytes (mix (mix h 5) a) p
-  | Dropped a p => mix_bytes (mix (mix h 6) a) p
+  | Queued a p => mix (mix (mix h 4) a) (bc p)
+  | Evicted a p => mix (mix (mix h 5) a) (bc p)
+  | Dropped a p => mix (mix (mix h 6) a) (bc p)
   end.
 
 Definition mix_hop (h : Z) (x : hop) : Z := mix_zs (mix h (h_addr x)) (h_flags x).
@@ -304,10 +308,10 @@ Definition mix_circ (h : Z) (c : circ) : Z :=
   let h := fold_left mix_hop (c_hops c) (mix h (Z.of_nat (length (c_hops c)))) in
   match c_unverified c with Some u => mix_hop (mix h 1) u | None => mix h 0 end.
 Definition mix_st (h : Z) (s : st) : Z :=
-  let h := fold_left (fun h kv => mix_bool (mix_bytes h (fst kv)) (snd kv)) (settings s)
+  let h := fold_left (fun h kv => mix_bool (mix h (bc (fst kv))) (snd kv)) (settings s)
                      (mix h (Z.of_nat (length (settings s)))) in
   let h := mix (mix_bool h (attached s)) (hops_cfg s) in
-  let h := fold_left (fun h x => mix_bytes (mix h (fst x)) (snd x)) (queue s)
+  let h := fold_left (fun h x => mix (mix h (fst x)) (bc (snd x))) (queue s)
                      (mix h (Z.of_nat (length (queue s)))) in
   let h := fold_left mix_circ (circuits s) (mix h (Z.of_nat (length (circuits s)))) in
   mix h (next_id s).
@@ -316,20 +320,29 @@ Definition mix_st (h : Z) (s : st) : Z :=
 Definition mix_step (h : Z) (outs : list out) (s1 : st) : Z :=
   mix (mix (fold_left mix_out outs (mix h 7)) (Z.of_nat (length (queue s1)))) (Z.of_nat (length (circuits s1))).
 
+(* digest of a whole history: every step, then the complete final state *)
+Definition path_digest (s : st) (ops : list op) : st * Z :=
+  fold_left (fun sh o => let '(s, h) := sh in
+                         let '(s1, outs) := step s o in (s1, mix_step h outs s1)) ops (s, 0).
+Definition history_digest (ops : list op) : Z :=
+  let '(s, h) := path_digest init ops in mix_st h s.
+End Digest.
+
+(* generated histories are compared through the digest over complete byte strings *)
+Definition run_case_digest (ops : list op) : Z := history_digest bytes_full ops.
+
 (* h: digest of the path so far; at a leaf the complete state enters; acc: fold over the leaves *)
 Fixpoint dfs (alpha : list op) (d : nat) (s : st) (h acc : Z) : Z :=
   match d with
-  | O => mix acc (mix_st h s)
+  | O => mix acc (mix_st bytes_code h s)
   | S d' =>
-      fold_left (fun acc o => let '(s1, outs) := step s o in dfs alpha d' s1 (mix_step h outs s1) acc)
+      fold_left (fun acc o => let '(s1, outs) := step s o in
+                              dfs alpha d' s1 (mix_step bytes_code h outs s1) acc)
                 alpha acc
   end.
 
 (* digest of all sequences  pre ++ w, |w| = d, w over alpha *)
 Definition enum_case := (list op * list op * nat)%type.
-Definition path_digest (s : st) (pre : list op) : st * Z :=
-  fold_left (fun sh o => let '(s, h) := sh in
-                         let '(s1, outs) := step s o in (s1, mix_step h outs s1)) pre (s, 0).
 Definition run_enum (c : enum_case) : Z :=
   let '(alpha, pre, d) := c in
-  let '(s, h) := path_digest init pre in dfs alpha d s h 0.
+  let '(s, h) := path_digest bytes_code init pre in dfs alpha d s h 0.
